@@ -24,8 +24,10 @@ from harness.common import zlit, qlit, listlit, parse_zlist
 from tracer.recipes import c18 as recipe
 from tracer import emit
 
-PROPS = ['C18_pad_amount_least', 'C18_pad_multiple', 'C18_pad_keeps_origin', 'C18_pad_noop', 'C18_pad_defined_partial',
-         'C18_pad_defined_iff', 'C18_pad_total_refuted', 'C18_pad_legacy_tuple_refuted', 'C18_pad_legacy_width_never_padded',
+PROPS = ['C18_pad_amount_least', 'C18_pad_any_border_multiple', 'C18_pad_any_border_keeps_origin', 'C18_pad_any_border_noop',
+         'C18_pad_code_is_generic', 'C18_pad_multiple', 'C18_pad_keeps_origin', 'C18_pad_noop', 'C18_pad_values_from_input',
+         'C18_pad_reflect_mode_iff', 'C18_pad_reflect_only_defined_iff', 'C18_pad_reflect_only_agrees', 'C18_pad_reflect_only_refuted',
+         'C18_pad_legacy_tuple_refuted', 'C18_pad_legacy_width_never_padded',
          'C18_pool_nonneg', 'C18_pool_min_at_gaze', 'C18_ecc_well_defined', 'C18_gaze_on_grid', 'C18_lod_nonneg',
          'C18_lod_zero_at_gaze', 'C18_lod_monotone', 'C18_lod_arg_positive', 'C18_equi_nonneg', 'C18_equi_min_at_gaze',
          'C18_equi_well_defined', 'C18_equi_clamp_harmless', 'C18_mip_chain', 'C18_levels_partition', 'C18_blur_pixel_eq',
@@ -54,27 +56,30 @@ def pad_image(h, w, c=1, b=1):
 
 
 def observe_pad(h, w, n):
-    """Run the real function with ReflectionPad2d replaced by a recording subclass.
-    Returns dict(called, tuple, out_shape | None, error)"""
+    """Run the real function on an image of distinct values and observe the padding BY ITS EFFECT: exception, output
+    size, whether the original block sits at (0, 0), whether a fitting image comes back unchanged.  Which torch padding
+    primitive was used (mode, tuple) is recorded as an auxiliary note only: every torch.nn padding module and
+    torch.nn.functional.pad end in torch.nn.functional.pad, which is wrapped while the function runs."""
     ssp, _, _ = mods()
-    rec = {'called': False, 'tuple': None, 'out': None, 'error': None}
-    real = torch.nn.ReflectionPad2d
+    rec = {'out': None, 'error': None, 'block_ok': None, 'unchanged': None, 'calls': []}
+    real = torch.nn.functional.pad
 
-    class Rec(real):
-        def __init__(self, padding):
-            rec['called'] = True
-            rec['tuple'] = [int(p) for p in (padding if isinstance(padding, (tuple, list)) else (padding,) * 4)]
-            super().__init__(padding)
+    def spy(input, pad, mode='constant', value=None):
+        rec['calls'].append((mode, [int(p) for p in pad]))
+        return real(input, pad, mode=mode, value=value)
     x = pad_image(h, w)
-    torch.nn.ReflectionPad2d = Rec
+    x0 = x.clone()
+    torch.nn.functional.pad = spy
     try:
         y = ssp.pad_image_for_pyramid(x, n)
         rec['out'] = [int(y.shape[2]), int(y.shape[3])]
         rec['y'] = y
+        rec['block_ok'] = bool(y.dim() == 4 and y.shape[2] >= h and y.shape[3] >= w and torch.equal(y[:, :, :h, :w], x0))
+        rec['unchanged'] = bool(list(y.shape) == list(x0.shape) and torch.equal(y, x0))
     except Exception as e:
         rec['error'] = repr(e)[:160]
     finally:
-        torch.nn.ReflectionPad2d = real
+        torch.nn.functional.pad = real
     return rec
 
 
@@ -103,8 +108,6 @@ def oracle_pad(inp):
         out.append(('original_pixels_at_original_positions', False, 'output at least as large as the input', [H, W]))
     if h % m == 0 and w % m == 0:
         out.append(('fitting_image_unchanged', list(y.shape) == list(x0.shape) and bool(torch.equal(y, x0)), 'the input', list(y.shape)))
-    vals = set(x0.reshape(-1).tolist())
-    out.append(('padding_reflects_input_values', set(y.reshape(-1).tolist()) <= vals, 'only values of the input', None))
     out.append(('argument_unchanged', bool(torch.equal(x, x0)), True, False))
     return out
 
@@ -189,7 +192,7 @@ def make_image(inp):
     raise ValueError(kind)
 
 
-def call_blur(inp, img):
+def call_blur(inp, img, before_final=None):
     _, _, rvb = mods()
     kw = dict(alpha=inp['alpha'], real_image_width=inp.get('rw', 0.2), real_viewing_distance=inp.get('rd', 0.7), mode=inp['mode'], equi=bool(inp.get('equi')))
     if inp.get('warm'):
@@ -200,7 +203,9 @@ def call_blur(inp, img):
         obj.blur(img.clone(), centre=gaze, **kw)
         for k, g in enumerate(inp['gaze']):
             gaze[k] = float(g)
+        if before_final: before_final()
         return obj.blur(img, centre=gaze, **kw)
+    if before_final: before_final()
     return rvb.RadiallyVaryingBlur().blur(img, centre=tuple(inp['gaze']), **kw)
 
 
@@ -374,34 +379,43 @@ def self_check(ctx, g):
 
 # ================================================================ B2: pad correspondence
 def pad_correspondence(ctx):
+    """alarming: what the property fixes (image returned, output size, original block at (0,0), fitting image unchanged)
+    against the model evaluated in Coq.  Auxiliary note (never alarming): whether the padding primitive, its tuple and
+    the border content are the ones of the model (reflect / replicate with (0, dw, 0, dh))."""
     hi = 70 if ctx.thorough else 40
     cases = [(h, w, n) for n in range(0, 5) for h in range(1, hi + 1) for w in range(1, hi + 1)]
     terms = ['pad_summary %d %d %d' % c for c in cases]
     vals = ctx.coq_eval(PRE + 'Import Pad. Open Scope Z_scope.', terms, label='pad', chunk=500)
     mism = 0
+    aux = {'cases_padded': 0, 'primitive_mode_and_tuple_as_model': 0, 'other_primitive': {}}
     for (h, w, n), v in zip(cases, vals):
         if v is None:
             continue
         o = observe_pad(h, w, n)
         needs = v.lstrip('( ').startswith('true')
+        refl = 'true' in v.split(')', 1)[1]                      # second component: (reflect_ok, tuple)
         nums = parse_zlist(v)
-        tup, size = nums[:4], (nums[4:6] if 'Some' in v else None)
-        if not needs:
-            ok = (not o['called']) and o['error'] is None and o['out'] == size
-        elif size is None:
-            ok = o['called'] and o['tuple'] == tup and o['error'] is not None
-        else:
-            ok = o['called'] and o['tuple'] == tup and o['error'] is None and o['out'] == size
-        ctx.case('pad-summary/n%d/%s' % (n, 'noop' if not needs else ('raises' if size is None else 'pads')), ('ps', h, w, n), nontrivial=needs)
+        size, tup = nums[0:2], nums[2:6]
+        ok = o['error'] is None and o['out'] == size and o['block_ok'] and (needs or o['unchanged'])
+        ctx.case('pad-summary/n%d/%s' % (n, 'noop' if not needs else ('reflect' if refl else 'replicate')), ('ps', h, w, n), nontrivial=needs)
         ctx.traces += 1
+        if needs:
+            aux['cases_padded'] += 1
+            want = ('reflect' if refl else 'replicate', tup)
+            if len(o['calls']) == 1 and (o['calls'][0][0], o['calls'][0][1]) == want:
+                aux['primitive_mode_and_tuple_as_model'] += 1
+            else:
+                k = json.dumps(o['calls'][:2]); aux['other_primitive'][k] = aux['other_primitive'].get(k, 0) + 1
         if not ok:
             mism += 1
             if mism <= 5:
-                ctx.log('pad: model/implementation disagree h=%d w=%d n=%d model=%s impl=%s' % (h, w, n, v, {k: o[k] for k in ('called', 'tuple', 'out', 'error')}))
-        if len(ctx.samples) < 2 and needs and size is not None and h != w:
-            ctx.sample({'pad': [h, w, n], 'model': v, 'implementation': {k: o[k] for k in ('called', 'tuple', 'out')}})
-    ctx.obligation('correspondence:pad-tuple-and-size(model=implementation on %d cases)' % len(cases), mism == 0 and len(cases) > 0, '%d disagreements' % mism)
-    # whole arrays
+                ctx.log('pad: model/implementation disagree h=%d w=%d n=%d model=%s impl=%s' % (h, w, n, v, {k: o[k] for k in ('out', 'error', 'block_ok', 'unchanged', 'calls')}))
+        if len(ctx.samples) < 2 and needs and h != w:
+            ctx.sample({'pad': [h, w, n], 'model(needs_pad, size, reflect, tuple)': v, 'implementation': {k: o[k] for k in ('out', 'block_ok', 'calls')}})
+    aux['other_primitive'] = dict(list(aux['other_primitive'].items())[:5])
+    ctx.obligation('correspondence:pad-size-origin-noop(model=implementation on %d cases)' % len(cases), mism == 0 and len(cases) > 0, '%d disagreements' % mism)
+    # whole arrays: size and original block are compared (alarming); the border against the model's reflect/replicate
+    # border is a note only (the property does not say what the added pixels contain)
     small = [(h, w, n) for n in (0, 1, 2, 3) for h in range(1, 10) for w in range(1, 10) if (h + 2 * w + n) % 3 != 0 or h == w]
     terms2, obs2 = [], []
     for h, w, n in small:
@@ -410,20 +424,24 @@ def pad_correspondence(ctx):
         terms2.append('run_pad %d %d %d %s' % (h, w, n, lit))
         obs2.append(observe_pad(h, w, n))
     vals2 = ctx.coq_eval(PRE + 'Import Pad. Open Scope Z_scope.', terms2, label='padarr', chunk=120)
-    bad2 = 0
+    bad2 = 0; border_same = 0
     for (h, w, n), v, o in zip(small, vals2, obs2):
         if v is None:
             continue
-        if v.strip() == 'None':
-            ok = o['error'] is not None
-        else:
-            nums = parse_zlist(v)
-            ok = o['error'] is None and nums[:2] == o['out'] and nums[2:] == [int(t) for t in o['y'][0, 0].reshape(-1).tolist()]
+        nums = parse_zlist(v)
+        H, W, flat = nums[0], nums[1], nums[2:]
+        ok = o['error'] is None and [H, W] == o['out'] and len(flat) == H * W
+        if ok:
+            ym = np.array(flat).reshape(H, W); yi = o['y'][0, 0].numpy().astype(int)
+            ok = bool((ym[:h, :w] == yi[:h, :w]).all())
+            border_same += int(bool((ym == yi).all()))
         ctx.case('pad-array', ('pa', h, w, n)); ctx.traces += 1
         if not ok:
             bad2 += 1
             if bad2 <= 3: ctx.log('pad array: disagree h=%d w=%d n=%d model=%s impl=%s' % (h, w, n, v[:200], o.get('out')))
-    ctx.obligation('correspondence:pad-full-arrays(%d)' % len(small), bad2 == 0, '%d disagreements' % bad2)
+    ctx.obligation('correspondence:pad-arrays-size-and-original-block(%d)' % len(small), bad2 == 0, '%d disagreements' % bad2)
+    aux['arrays_with_border_equal_to_model'] = '%d of %d' % (border_same, len(small))
+    ctx.extra['pad_auxiliary_note(not alarming)'] = aux
 
 
 # ================================================================ B2: blur correspondence
@@ -439,6 +457,59 @@ def build_levels(img1, sizes):
             ups.append(chain[k] * torch.ones(img1.shape))
         else:
             ups.append(F.interpolate(chain[k], size=(h, w), mode='bilinear', align_corners=False))
+    return chain, ups
+
+
+def observed_blur(inp, img):
+    """Run the real blur and record its own torch.nn.functional.interpolate calls (of the final call).  Returns
+    (out, calls) with calls = [(input tensor, output tensor)] in call order."""
+    calls = []
+    real = torch.nn.functional.interpolate
+    state = {'on': False}
+
+    def spy(input, *a, **k):
+        r = real(input, *a, **k)
+        if state['on']:
+            calls.append((input, r))
+        return r
+    torch.nn.functional.interpolate = spy
+    try:
+        out = call_blur(inp, img, before_final=lambda: state.update(on=True))
+    finally:
+        torch.nn.functional.interpolate = real
+    return out, calls
+
+
+def levels_from_calls(img, calls):
+    """The implementation's own mip chain and full-size levels, identified by tensor identity: the chain follows the
+    calls whose input is the previous level and whose output is not full size; level k's full-size version is reached
+    by following the calls that start at chain[k] and produce full-size tensors.  None if the structure is not found."""
+    full = tuple(img.shape[-2:])
+    used = set()
+
+    def nxt(t, want_full):
+        for k, (a, r) in enumerate(calls):
+            if k not in used and a is t and ((tuple(r.shape[-2:]) == full) == want_full or (t is img and not want_full)):
+                used.add(k); return r
+        return None
+    chain = [img]
+    while True:
+        r = nxt(chain[-1], False)
+        if r is None or len(chain) > 64:
+            break
+        chain.append(r)
+    ups = [img]
+    for k in range(1, len(chain)):
+        t = nxt(chain[k], True)
+        if t is None:
+            if tuple(chain[k].shape[-2:]) == (1, 1) and k == len(chain) - 1:
+                ups.append(chain[k] * torch.ones(img.shape)); continue
+            return None
+        while True:
+            r = nxt(t, True)
+            if r is None: break
+            t = r
+        ups.append(t)
     return chain, ups
 
 
@@ -467,14 +538,14 @@ def blur_correspondence(ctx):
         if v is not None:
             z = parse_zlist(v); sizes[s] = [[z[k], z[k + 1]] for k in range(0, len(z), 2)]
     terms, meta = [], []
-    contract_bad = 0; raised = 0
+    contract_bad = 0; raised = 0; chain_bad = 0; levels_observed = 0
     for inp in cases:
         s = (inp['h'], inp['w'])
         if s not in sizes:
             continue
         img = make_image(inp)
         try:
-            out = call_blur(inp, img.clone())
+            out, calls = observed_blur(inp, img)
             lod = lod_map_of(inp)
         except Exception as e:
             raised += 1
@@ -486,11 +557,26 @@ def blur_correspondence(ctx):
             continue
         b, c = rng.randrange(img.shape[0]), rng.randrange(img.shape[1])
         img1 = img[b:b + 1, c:c + 1]
-        chain, ups = build_levels(img1, sizes[s])
-        lo, hi = float(img1.min()), float(img1.max())
-        for u in chain + ups:                       # observed contract: interpolate is a convex average
-            if float(u.min()) < lo - 1e-6 or float(u.max()) > hi + 1e-6:
-                contract_bad += 1
+        # the levels are the implementation's OWN interpolation results (so another interpolation mode that is
+        # still a convex average does not alarm); their sizes must be the model's chain
+        found = levels_from_calls(img, calls)
+        if found is not None:
+            chain_f, ups_f = found
+            observed_sizes = [[int(t.shape[-2]), int(t.shape[-1])] for t in chain_f]
+            if observed_sizes != sizes[s]:
+                chain_bad += 1
+                if chain_bad <= 4: ctx.log('blur: mip chain sizes differ on %dx%d: model %s implementation %s' % (s[0], s[1], sizes[s], observed_sizes))
+                continue
+            ups = [u[b:b + 1, c:c + 1] for u in ups_f]
+            levels_observed += 1
+        else:
+            chain, ups = build_levels(img1, sizes[s])          # structure not recognised: the model's chain rebuilt with torch
+        for a_t, r_t in calls:                      # observed contract: every interpolate call is a convex average
+            for bb in range(a_t.shape[0]):
+                for cc in range(a_t.shape[1]):
+                    lo, hi = float(a_t[bb, cc].min()), float(a_t[bb, cc].max())
+                    if float(r_t[bb, cc].min()) < lo - 1e-6 * max(1, abs(lo)) or float(r_t[bb, cc].max()) > hi + 1e-6 * max(1, abs(hi)):
+                        contract_bad += 1
         npx = inp['h'] * inp['w']
         # large images: a random subset of pixels goes through Coq (all of them for small ones)
         idx = list(range(npx)) if npx <= 160 else sorted(rng.sample(range(npx), 160))
@@ -514,7 +600,9 @@ def blur_correspondence(ctx):
             ctx.sample({'blur_case': inp, 'levels': L, 'pixels_compared_in_coq': k, 'agree_within': BLUR_TOL, 'verdict': v})
     ctx.obligation('correspondence:blur(model evaluated in Coq = implementation, %d images, tol %g)' % (len(meta), BLUR_TOL),
                    bad == 0 and raised == 0 and len(meta) > 0, '%d disagreements, %d cases where the implementation raised' % (bad, raised))
-    ctx.obligation('contract:interpolate-is-a-convex-average(observed on the levels of %d images)' % len(meta), contract_bad == 0, '%d levels left the input range' % contract_bad)
+    ctx.obligation('correspondence:mip-chain-sizes(model=implementation)', chain_bad == 0, '%d images with another chain' % chain_bad)
+    ctx.obligation('contract:interpolate-is-a-convex-average(observed on every interpolate call of %d images)' % len(meta), contract_bad == 0, '%d calls left the range of their input' % contract_bad)
+    ctx.extra['blur_levels_taken_from_the_implementation_own_interpolate_calls'] = '%d of %d images' % (levels_observed, len(meta))
 
 
 # ================================================================ run
